@@ -265,6 +265,7 @@ Definition doc_remote (s : jt) (o : op) : jt :=
       ign (on_node s p (fun j => match j with
                                  | JA c d l sz => Some (JA c d (aupd_remote l targets vs (opid_ts i) 0) sz)
                                  | _ => None end))
+  | OSnap _ => doc_init
   | _ => s
   end.
 
